@@ -87,6 +87,9 @@ def check(tier, replay):
     b3, s3, _ = vlib.tlc_generate(work, "Gen_HDir.tla", "Gen_HDir_cover.cfg", work.path("g_cover.ndjson"))
     b3 = load_gen(b3)
     gens["transition cover" + (" (sample)" if quick else "")] = sample(b3, 6000, 2) if quick else b3
+    b3h, _, _ = vlib.tlc_generate(work, "Gen_HDir.tla", "Gen_HDir_cover_hi.cfg", work.path("g_cover_hi.ndjson"))
+    b3h = load_gen(b3h)
+    gens["transition cover, a tag >= 32768 next to small ones (extended tags: no special variant; tag order across the sign bit)" + (" (sample)" if quick else "")] = sample(b3h, 5000, 5) if quick else b3h
     b4, s4, _ = vlib.tlc_generate(work, "Gen_HDir.tla", "Gen_HDir_sim.cfg", work.path("g_sim.ndjson"), mode="sim",
                                   num=2000 if quick else 12000, depth=25)
     gens["simulate depth 24"] = load_gen(b4)
